@@ -48,7 +48,9 @@ CHECKS = {
             "missing batch API / store) x versions x turn ids x cadence x cache-bust settings with a preloaded CacheManager, checked "
             "against a reference model of the documented contract (call log, exactly-once, version+1, cadence, invalidation counts, "
             "never raises); (b) 3-8 turn histories through Orchestrator.run_turn with kill switch toggles, store faults and injected "
-            "deltas: store receives exactly what the meta-filter approved, version/log/snapshot discipline, kill-switch inertness.",
+            "deltas: store receives exactly what the meta-filter approved, version/log/snapshot discipline, kill-switch inertness, "
+            "cache busting observed on a live manager; (c) sequences of 2-6 applies on ONE state/store/manager with the settings "
+            "edited in place on a live config, agents, directories and managers changing between steps.",
             "Trusted: all-or-nothing store double; the cadence rule int(turn) % n == 0 from apply.py's docstring.",
             "DESIGN.md §3 C04"),
     "C05": ("exploration",
@@ -165,7 +167,10 @@ CHECKS = {
             "{0,1,5}, both policies, memoised on normalised state to saturation: purity/determinism, eligibility/reset rule, fair-queue "
             "argmax, bookkeeping and the wait bound 2(n-1)m+1; random long histories with up to 6 agents and arbitrary clock jumps; "
             "_should_yield vs reference precedence on generated budgets/consumption; real Orchestrator.run_turn with scheduling on and "
-            "perf_counter scripted: one yield event at a stage boundary, reason admissible, no later-stage records, stage work within budgets.",
+            "perf_counter scripted (thresholds crossed by the SUM of several stages, non-zero clock origin, two slices on one state/ctx): "
+            "one yield event at a stage boundary, reason admissible, no later-stage records, stage work within budgets (real heap pops "
+            "per graph, hop reach, hits used incl. RAG re-entry, plan ops); the repo's own driver loop (scripts/demo.py) run in-process "
+            "and judged against the eligibility / reset / wait-bound rules.",
             "Trusted: harness/models/scheduler.py; where docs are silent (order among several BUDGET_* reasons, per-graph vs per-slice T1 budget) both readings are admitted.",
             "DESIGN.md §3 C17"),
     "C18": ("exploration",
